@@ -258,7 +258,8 @@ def reference_from_md(md, query_aligned):
     return out
 
 
-def check_records(case, frags, records, site, n_source_written=None, expected_DS=None, sample=None, contig=None):
+def check_records(case, frags, records, site, n_source_written=None, expected_DS=None, sample=None, contig=None,
+                  expected_TF=None):
     """All clauses of the property on the consensus records of one molecule."""
     out = []
     obs = observations(frags)
@@ -317,7 +318,8 @@ def check_records(case, frags, records, site, n_source_written=None, expected_DS
             if kind != 'open' and seq[qi] != want:
                 out.append((f'{site}:base-call:{kind}-evidence-not-called', {'record': desc, 'position': p, 'observations': obs[p], 'got': seq[qi], 'expected': want}))
         # tags
-        for tag, want in (('SM', sample or SAMPLE), ('RX', UMI), ('TF', len(frags)), ('TR', expected_TR(case)), ('DS', expected_DS)):
+        for tag, want in (('SM', sample or SAMPLE), ('RX', UMI), ('TF', expected_TF if expected_TF is not None else len(frags)),
+                          ('TR', expected_TR(case) if expected_TF is None else None), ('DS', expected_DS)):
             if want is None:
                 continue
             got = rec.get_tag(tag) if rec.has_tag(tag) else None
@@ -372,22 +374,37 @@ def run_case(case):
     info = {'records': 0}
     try:
         if case['api'] in ('dedup', 'write_pysam'):
-            mol = mcls(None, reference=_fasta())
+            cap = case.get('cap')
+            mol = mcls(None, reference=_fasta(), **({'max_associated_fragments': cap} if cap else {}))
             fobjs = []
+            refused = 0
             for rl in reads:
                 fo = fcls(rl, **fargs)
                 if not fo.is_valid():
                     raise HarnessError(f'fragment not valid: {case}')
-                if not mol.add_fragment(fo):
-                    raise HarnessError(f'fragment not accepted into the molecule: {case}')
+                try:
+                    if not mol.add_fragment(fo):
+                        raise HarnessError(f'fragment not accepted into the molecule: {case}')
+                except OverflowError:
+                    if not cap:
+                        raise
+                    refused += 1       # the molecule is full: the fragment is counted (TF) but not part of the consensus
+                    continue
                 fobjs.append(fo)
+            total_offered = len(reads)
+            if cap:
+                if len(fobjs) != min(cap, total_offered):
+                    raise HarnessError(f'cap {cap}: molecule holds {len(fobjs)} of {total_offered} fragments')
+                frags = frags[:len(fobjs)]
+                reads = reads[:len(fobjs)]
             ds = _expected_DS(case, fobjs, reads)
             if case['api'] == 'dedup':
                 path = _scratch('t.bam')
                 with pysam.AlignmentFile(path, 'wb', header=header) as target:
                     res = mol.deduplicate_majority(target, 'consensus_0', max_N_span=case.get('max_N_span'))
                     records = [r for r in (res or []) if r is not None]
-                    viols = check_records(case, frags, records, site, expected_DS=ds)
+                    viols = check_records(case, frags, records, site, expected_DS=ds,
+                                          expected_TF=(total_offered if cap else None))
                 os.unlink(path)
             else:
                 path = _scratch('w.bam')
@@ -633,6 +650,14 @@ def run_shard(shard, tier, acc):
             outcome = (f"{api}:records={info['records']}:gap={'none' if not info['gapped'] else ('>max' if info['max_gap'] > MAX_N_SPAN else '<=max')}"
                        f":conflict={'+'.join(info['conflict']) or 'none'}")
             acc.case(case, transitions=1 + info['records'], nontrivial=info['gapped'] or bool(info['conflict']), outcome=outcome)
+            for sig, d in viols:
+                acc.violation(sig, case, d)
+        if level >= 2 and cls != 'plain':
+            # a fragment cap smaller than the number of fragments offered: the consensus is made of the fragments the molecule
+            # holds, its fragment-count tag still counts every fragment of the molecule (as on the source reads)
+            case = {'cls': cls, 'strand': strand, 'letters': letters, 'api': 'dedup', 'max_N_span': None, 'cap': level - 1}
+            viols, info = run_case(case)
+            acc.case(case, transitions=1 + info['records'], nontrivial=True, outcome=f"dedup:capped:records={info['records']}")
             for sig, d in viols:
                 acc.violation(sig, case, d)
 
